@@ -897,7 +897,9 @@ where
         let iter = iter.into_iter();
         let (min, max) = iter.size_hint();
         let rebuild = if let Some(max) = max {
-            self.reserve(max);
+            // only the lower bound is a promise: reserving the upper bound can
+            // overflow the capacity for a perfectly legal `size_hint`
+            self.reserve(min);
             better_to_rebuild(self.len(), max)
         } else if min != 0 {
             self.reserve(min);
@@ -966,7 +968,7 @@ fn better_to_rebuild(len1: usize, len2: usize) -> bool {
         return false;
     }
 
-    2 * (len1 + len2) < len2 * log2_fast(len1)
+    len1.saturating_add(len2).saturating_mul(2) < len2.saturating_mul(log2_fast(len1))
 }
 
 #[cfg(feature = "serde")]
